@@ -85,9 +85,9 @@ theorem op_sep_eq : Gen.CpuGo.Alt.op_sep = Cpu.runP .sep := by
   gorun [shr16, Cpu.setZN8, Cpu.setZN16, Cpu.setZ8, Cpu.setZ16, Cpu.toIndex, Cpu.toAcc, Cpu.srcC, Cpu.srcX, Cpu.srcY, Cpu.compare8,
     Cpu.compare16, Cpu.addBranchCycles]
 
-theorem op_stp_eq : Gen.CpuGo.Alt.op_stp = Cpu.runP .stp := by
+theorem stp_eq : Gen.CpuGo.Alt.stp = Cpu.runP .stp := by
   funext s
-  simp only [Gen.CpuGo.Alt.op_stp, Cpu.runP, Cpu.logic, Cpu.rmw, Cpu.branchIf, Cpu.blockMove, Cpu.interruptLike,
+  simp only [Gen.CpuGo.Alt.stp, Cpu.runP, Cpu.logic, Cpu.rmw, Cpu.branchIf, Cpu.blockMove, Cpu.interruptLike,
     Cpu.interruptBody, Cpu.rtiBody, gotie_a]
   gorun [shr16, Cpu.setZN8, Cpu.setZN16, Cpu.setZ8, Cpu.setZ16, Cpu.toIndex, Cpu.toAcc, Cpu.srcC, Cpu.srcX, Cpu.srcY, Cpu.compare8,
     Cpu.compare16, Cpu.addBranchCycles]
@@ -151,6 +151,13 @@ theorem op_xba_eq : Gen.CpuGo.Alt.op_xba = Cpu.runP .xba := by
 theorem op_xce_eq : Gen.CpuGo.Alt.op_xce = Cpu.runP .xce := by
   funext s
   simp only [Gen.CpuGo.Alt.op_xce, Cpu.runP, Cpu.logic, Cpu.rmw, Cpu.branchIf, Cpu.blockMove, Cpu.interruptLike,
+    Cpu.interruptBody, Cpu.rtiBody, gotie_a]
+  gorun [shr16, Cpu.setZN8, Cpu.setZN16, Cpu.setZ8, Cpu.setZ16, Cpu.toIndex, Cpu.toAcc, Cpu.srcC, Cpu.srcX, Cpu.srcY, Cpu.compare8,
+    Cpu.compare16, Cpu.addBranchCycles]
+
+theorem wai_eq : Gen.CpuGo.Alt.wai = Cpu.runP .nop := by
+  funext s
+  simp only [Gen.CpuGo.Alt.wai, Cpu.runP, Cpu.logic, Cpu.rmw, Cpu.branchIf, Cpu.blockMove, Cpu.interruptLike,
     Cpu.interruptBody, Cpu.rtiBody, gotie_a]
   gorun [shr16, Cpu.setZN8, Cpu.setZN16, Cpu.setZ8, Cpu.setZ16, Cpu.toIndex, Cpu.toAcc, Cpu.srcC, Cpu.srcX, Cpu.srcY, Cpu.compare8,
     Cpu.compare16, Cpu.addBranchCycles]
